@@ -13,13 +13,14 @@ PROPERTY = "C07"
 NSHARDS = {"quick": 4, "thorough": 16}
 CLAUSES = {
     "C07.shape": 2000, "C07.member": 2000, "C07.multiplicity": 2000, "C07.outcross": 1200, "C07.xmap": 150,
-    "C07.solution": 600, "C07.truncation": 100, "C07.equivariance": 120, "C07.mo": 120,
+    "C07.solution": 600, "C07.reentrant": 150, "C07.truncation": 100, "C07.equivariance": 120, "C07.mo": 120,
     "C07.util.tiled.balance": 1000, "C07.util.sus.floorceil": 400, "C07.util.outcross.localopt": 1000,
 }
 HOOKS_REQUIRED = ["tiled_choice<-configuration", "stochastic_universal_sampling<-configuration", "outcross_shuffle<-configuration",
                   "plug-in optimiser called by protocol", "constrained front mixing feasible and infeasible points",
                   "cross-level truncation with nparent >= 3 and selfing allowed", "fronts re-evaluated: real multi-objective optimiser",
-                  "equivariance: decoy run with different content in the inputs the protocol does not read"]
+                  "equivariance: decoy run with different content in the inputs the protocol does not read",
+                  "select runs whose callback re-entered the protocol"]
 RULE = ("three seeded families.  cfg: the eight sampled configuration classes built directly from hostile decisions (subsets whose size "
         "divides / does not divide / exceeds the number of slots, repeated members; contribution vectors with zeros, one-hot, equal, "
         "1e-9..1 magnitudes; integer/binary counts with zeros, totals below/at/above the slot count; candidate-cross maps with and without "
@@ -32,7 +33,8 @@ RULE = ("three seeded families.  cfg: the eight sampled configuration classes bu
         "ungrouped families, gmat = the pgmat object | a distinct phased object | unphased counts, the distinct ones carrying their own "
         "calls (5-50 % of the alleles differ from pgmat) in 60 % of the worlds, breeding values drawn independently of the genomic model, 1-3 traits, ties and duplicated individuals, 1-2 objectives, "
         "objective weights of mixed sign and non-unit magnitude whenever there are 2 objectives (all encodings), "
-        "ndset weights of both signs with four harness transformations or the library default.  equi: subset-encoded protocols run on a "
+        "ndset weights of both signs with four harness transformations or the library default, in a fifth of the runs one of "
+        "ndset_trans / obj_trans / a constraint transformation re-enters the protocol (solve, select, problem, evalfn on a reference population).  equi: subset-encoded protocols run on a "
         "population, on a consistently permuted copy, on a renamed copy and on a decoy copy whose inputs the family does not read (pgmat / "
         "gmat / bvmat / gpmod, table USES) carry different content, with exact optimisers.  Non-trivial: more than one slot or "
         "more than one candidate; distinct = digest of the generated inputs.")
@@ -60,6 +62,10 @@ ASSUME = ["all inputs of one select() call list the taxa in the same order (the 
           "C07.mo second route: every returned front decision is evaluated afresh with the problem object the protocol built (captured "
           "from protocol.problem); the configuration must come from a maximiser (1e-9 relative) of the declared preference over those values; "
           "real NSGA-II classes (the protocols' defaults, ngen<=15, pop<=24) solve a third of the multi-objective runs",
+          "re-entrant callbacks: a transformation that calls back into the same protocol object (sosolve/mosolve/select for a reference "
+          "population of another size, problem() + evalfn, evalfn of another candidate) and then returns what the plain transformation "
+          "returns must leave the outer call's result unchanged; exceptions of the nested call are swallowed by the callback; the harness "
+          "recomputes preferences with the plain function; an outer exception is a violation only if the plain callback succeeds",
           "C07.mo accepts any maximiser of ndset_wt*ndset_trans(front) (ties), recomputed by calling the declared function on the returned front"]
 TOL = 1e-9
 
@@ -697,10 +703,66 @@ def case_sel(ctx, c):
         return
     miscout = {}
     built = []
+    # ---- re-entrant user callbacks (a fifth of the runs, every family): one of the transformations calls back into this very
+    # protocol (solve / select for a reference population, build another problem, evaluate another candidate) before it returns
+    # exactly what the plain transformation returns
+    reent = None
+    if g.random() < 0.2:
+        which = str(g.choice((["ndset", "ndset", "obj"] if nobj > 1 else ["obj"]) + (["cons"] if sum(ncons) else [])))
+        action = str(g.choice(["solve", "select", "problem+evalfn", "evalfn"]))
+        gr = ctx.rng("sel-reference", c)
+        nref = n + int(gr.integers(1, 4))
+        Aref = draw_arrays(gr, nref, m, t, "gauss", polymorphic=fam in INDEPENDENT[2:])
+        for key in ("chrgrp", "phypos", "genpos", "xoprob", "vname", "u", "beta", "trait", "nchr"):
+            Aref[key] = A[key]                      # same marker panel and model, other individuals
+        Wref = build_world(Aref, unphased=unphased)
+        Wref["mod"] = W["mod"]
+        attr = {"ndset": "ndset_trans", "obj": "obj_trans", "cons": "ineqcv_trans" if ncons[0] else "eqcv_trans"}[which]
+        reent = R.Reentrant(getattr(sel, attr), budget=1)
+        args = dict(pgmat=Wref["pg"], gmat=Wref["gm"], ptdf=None, bvmat=Wref["bv"], gpmod=Wref["mod"], t_cur=0, t_max=10)
+
+        def act():
+            if action == "solve":
+                (sel.sosolve if nobj == 1 else sel.mosolve)(miscout=None, **args)
+            elif action == "select":
+                sel.select(miscout={}, **args)
+            else:
+                p = sel.problem(**args) if action == "problem+evalfn" or not built else built[0]
+                ds = numpy.asarray(p.decn_space)
+                p.evalfn(ds[: int(p.ndecn)].copy() if enc == "Subset" else numpy.asarray(p.decn_space_upper).copy())
+        reent.action = act
+        try:
+            setattr(sel, attr, reent)
+        except Exception as e:
+            ctx.raised("install re-entrant %s" % attr, e)
+            reent = None
+        if reent is not None:
+            w["reentrant_callback"] = {"callback": attr, "calls_back_into": action, "reference_ntaxa": nref}
     try:
         with watching("called from a selection configuration", coords):
             cfg = run_select(sel, W, miscout, built)
     except Exception as e:
+        if reent is not None and reent.reentries > 0:
+            # equivalence: the same call with a plain callback (same numbers from a separate object) must fail as well
+            try:
+                g2 = ctx.rng("sel-plain", c)
+                if kind == "sorting":
+                    algo2 = type(algo)()
+                elif kind == "ga":
+                    algo2 = ga(enc, nobj > 1, g2, ctx.tier)
+                else:
+                    algo2 = R.plugin(enc, make_chooser(g2, enc, kind, k, []))
+                pk2 = dict(pk); pk2["soalgo" if nobj == 1 else "moalgo"] = algo2
+                cls(**pk2, **kw).select(pgmat=W["pg"], gmat=W["gm"], ptdf=None, bvmat=W["bv"], gpmod=W["mod"], t_cur=0, t_max=10, miscout={})
+                plain_ok = True
+            except Exception:
+                plain_ok = False
+            ctx.check("C07.reentrant", not plain_ok, defsite(cls, "select"), "raises only when a callback re-enters the protocol",
+                      "%s encoding%s/%s calls back" % (enc, " (mate)" if mate else "", w["reentrant_callback"]["callback"]),
+                      what="%s.select raised %s: %s with a re-entrant %s, succeeds with the plain one" % (
+                          name, type(e).__name__, str(e)[:100], w["reentrant_callback"]["callback"]), witness=w, coords=coords)
+            if plain_ok:
+                return
         ctx.raised("%s.select%s: %s" % (name, " [short GA]" if kind == "ga" else "", type(e).__name__), e)
         return
     if kind not in ("sorting", "ga"):
@@ -720,6 +782,23 @@ def case_sel(ctx, c):
     if not ok:
         return
     SD = numpy.asarray(soln.soln_decn)
+    if reent is not None:
+        ctx.hook("select runs whose callback re-entered the protocol", int(reent.reentries > 0))
+        ctx.sumnote("nested calls made by re-entrant callbacks that raised", len(reent.errors))
+        if reent.reentries > 0:
+            rcls = "%s/%s calls back" % (icls, w["reentrant_callback"]["callback"])
+            if built:
+                p0 = built[0]
+                ctx.check("C07.reentrant", SD.ndim == 2 and SD.shape[1] == int(p0.ndecn) and
+                          numpy.array_equal(numpy.asarray(soln.decn_space), numpy.asarray(p0.decn_space)), ssite,
+                          "returned solution describes the problem built for this call, not one of a nested call", rcls,
+                          witness=dict(w, soln_decn=SD, outer_ndecn=int(p0.ndecn), outer_decn_space=p0.decn_space), coords=coords)
+            if kind not in ("sorting", "ga") and algo.history and algo.history[0] is not None:
+                ctx.check("C07.reentrant", numpy.array_equal(SD, algo.history[0][0]) and
+                          numpy.array_equal(numpy.asarray(soln.soln_obj, dtype=float), algo.history[0][1]), ssite,
+                          "returned solution is what the optimiser returned for this call, not for a nested call", rcls,
+                          witness=dict(w, soln_decn=SD, optimiser_first_return=algo.history[0][0], optimiser_calls=len(algo.history)),
+                          coords=coords)
     if nobj == 1:
         ctx.check("C07.solution", numpy.array_equal(decn, SD[0]) and (kind in ("sorting", "ga") or numpy.array_equal(SD, algo.X)), ssite,
                   "configuration decision is the optimiser's solution", icls, witness=dict(w, soln_decn=SD, xconfig_decn=decn), coords=coords)
@@ -751,7 +830,8 @@ def case_sel(ctx, c):
     if nobj > 1:
         F = numpy.asarray(soln.soln_obj, dtype=float)
         try:
-            score = numpy.asarray(sel.ndset_wt * sel.ndset_trans(F.copy(), **sel.ndset_trans_kwargs), dtype=float)
+            ndfn = getattr(sel.ndset_trans, "plain", sel.ndset_trans)     # the declared numbers, without calling back into the protocol
+            score = numpy.asarray(sel.ndset_wt * ndfn(F.copy(), **sel.ndset_trans_kwargs), dtype=float)
         except Exception as e:
             ctx.raised("ndset_trans recomputation", e)
             return
@@ -775,8 +855,9 @@ def case_sel(ctx, c):
         # to come from a maximiser of the declared preference over those objectives (does not trust soln_obj nor its row order)
         if built:
             try:
-                F2 = numpy.stack([numpy.asarray(built[-1].evalfn(numpy.asarray(x))[0], dtype=float) for x in SD])
-                score2 = numpy.asarray(sel.ndset_wt * sel.ndset_trans(F2.copy(), **sel.ndset_trans_kwargs), dtype=float)
+                # built[0] is the problem of THIS call (problems built by nested, re-entrant calls come later)
+                F2 = numpy.stack([numpy.asarray(built[0].evalfn(numpy.asarray(x))[0], dtype=float) for x in SD])
+                score2 = numpy.asarray(sel.ndset_wt * ndfn(F2.copy(), **sel.ndset_trans_kwargs), dtype=float)
             except Exception as e:
                 ctx.raised("fresh evaluation of the returned front", e)
                 score2 = None
